@@ -4,7 +4,7 @@ ID = "C05"
 PROP = {
         "props_module": "FV.Props.C05",
         "builders": {"rt": V.build_rt},
-        "suites": [("rt", "c05pure", {"quick": 3000, "thorough": 300000}), ("rt", "c05recv", {"quick": 1500, "thorough": 60000})],
+        "suites": [("rt", "c05pure", {"quick": 3000, "thorough": 300000}), ("rt", "c05recv", {"quick": 1500, "thorough": 60000}), ("rt", "c05http", {"quick": 800, "thorough": 20000})],
         "suite_args_first": {"c05pure": ["-huge", "3"]},
         "rule": "Valid frames with one mutation (truncate at any offset, a size field set to a boundary value, version byte, bit flip, duplicate/splice, truncate+pad) and raw random bytes of length 0..64, fed to hff/umf/exf/exe/ums/ahf.",
         "trusted": ["Modelled, not verified: Go slice-expression semantics as `FV.slice` (cap = len), thrift.TMemoryBuffer reader"],
